@@ -687,11 +687,10 @@ fn try_run_func(
         let status = cr_list.last().map_or(0, |cr| cr.status);
         let mut stdout = String::new();
         let mut stderr = String::new();
+        // the function's output is what its commands wrote, in order
         for cr in cr_list {
-            stdout.push_str(cr.stdout.trim());
-            stdout.push(' ');
-            stderr.push_str(cr.stderr.trim());
-            stderr.push(' ');
+            stdout.push_str(&cr.stdout);
+            stderr.push_str(&cr.stderr);
         }
         let mut cr = CommandResult::new();
         cr.status = status;
